@@ -375,6 +375,41 @@ def extract():
                           "returnnew_memory;", "reallocMemory")
     rguard = expr(h["G"], ["size"], ["sizeOfMemoryWithCorruptionInfo"], kind="bool")
 
+    # ---- the pointer handed to the caller is the pointer the platform returned (offset 0), and it is the pointer
+    #      handed back to free_memory: node->init stores `memory`, allocMemory returns node->memory_, deallocMemory
+    #      passes `memory` on; invalidateMemory poisons node->size_ bytes from `memory`
+    body = function_body(det, r"void\s+MemoryLeakDetectorNode::init\s*\([^)]*\)\s*\{")
+    match_shape(body, "number_=number;memory_=memory;size_=size;allocator_=allocator;period_=period;"
+                      "allocation_stage_=allocation_stage;file_=file;line_=line;", "MemoryLeakDetectorNode::init")
+    body = function_body(det, r"void\s+MemoryLeakDetector::deallocMemory\s*\(\s*TestMemoryAllocator\*\s*allocator\s*,\s*void\*\s*memory\s*,\s*const\s+char\*\s*file[^)]*\)\s*\{")
+    match_shape(body, "if(memory==NULLPTR)return;MemoryLeakDetectorNode*node=memoryTable_.removeNode((char*)memory);"
+                      "if(node==NULLPTR){outputBuffer_.reportDeallocateNonAllocatedMemoryFailure(file,line,allocator,reporter_);return;}"
+                      "#ifdefCPPUTEST_DISABLE_MEM_CORRUPTION_CHECKallocatNodesSeperately=true;#endif"
+                      "if(!allocator->hasBeenDestroyed()){size_tsize=node->size_;"
+                      "checkForCorruption(node,file,line,allocator,allocatNodesSeperately);"
+                      "allocator->free_memory((char*)memory,size,file,line);}", "deallocMemory")
+    body = function_body(det, r"void\s+MemoryLeakDetector::checkForCorruption\s*\([^)]*\)\s*\{")
+    match_shape(body, "if(!matchingAllocation(node->allocator_->actualAllocator(),allocator->actualAllocator()))"
+                      "outputBuffer_.reportAllocationDeallocationMismatchFailure(node,file,line,allocator->actualAllocator(),reporter_);"
+                      "elseif(!validMemoryCorruptionInformation(node->memory_+node->size_))"
+                      "outputBuffer_.reportMemoryCorruptionFailure(node,file,line,allocator->actualAllocator(),reporter_);"
+                      "elseif(allocateNodesSeperately)allocator->freeMemoryLeakNode((char*)node);", "checkForCorruption")
+    body = function_body(det, r"void\s+MemoryLeakDetector::invalidateMemory\s*\(\s*char\*\s*memory\s*\)\s*\{")
+    h = match_shape(body, "#ifndefCPPUTEST_DISABLE_HEAP_POISONMemoryLeakDetectorNode*node=memoryTable_.retrieveNode(memory);"
+                          "if(node)PlatformSpecificMemset(memory,«P»,node->size_);#endif", "invalidateMemory")
+    if not re.fullmatch(r"0[xX][0-9a-fA-F]+|\d+", h["P"]):
+        raise TranslateError("poison byte not a literal: " + h["P"])
+    poison = int(h["P"], 0) & 255
+    for fn, getter, tail in (("mem_leak_free", "getCurrentMallocAllocator()", ",file,line,true"),
+                             ("mem_leak_operator_delete", "getCurrentNewAllocator()", ""),
+                             ("mem_leak_operator_delete_array", "getCurrentNewArrayAllocator()", "")):
+        body = squeeze(function_body(mlw, r"static\s+void\s+%s\s*\([^)]*\)[^{;]*\{" % fn))
+        arg = "buffer" if fn == "mem_leak_free" else "mem"
+        want = ("MemoryLeakWarningPlugin::getGlobalDetector()->invalidateMemory((char*)%s);"
+                "MemoryLeakWarningPlugin::getGlobalDetector()->deallocMemory(%s,(char*)%s%s);" % (arg, getter, arg, tail))
+        if body != want:
+            raise TranslateError("%s changed shape: %s" % (fn, body))
+
     # ---- C wrappers
     body = function_body(thc, r"void\*\s*cpputest_calloc_location\s*\([^)]*\)\s*\{")
     h = match_shape(body, "if(«T»)returnNULLPTR;void*mem=cpputest_malloc_location(«R»,file,line);"
@@ -388,11 +423,26 @@ def extract():
                       "PlatformSpecificMemCpy(result,str,size);result[size-1]='\\0';returnresult;", "strdup_alloc")
     body = function_body(thc, r"static\s+size_t\s+test_harness_c_strlen\s*\([^)]*\)\s*\{")
     match_shape(body, "size_tn=0;while(*str++)n++;returnn;", "test_harness_c_strlen")
-    body = function_body(thc, r"char\*\s*cpputest_strdup_location\s*\([^)]*\)\s*\{")
-    match_shape(body, "size_tlength=1+test_harness_c_strlen(str);returnstrdup_alloc(str,length,file,line);", "cpputest_strdup_location")
-    body = function_body(thc, r"char\*\s*cpputest_strndup_location\s*\([^)]*\)\s*\{")
-    match_shape(body, "size_tlength=test_harness_c_strlen(str);length=length<n?length:n;length=length+1;"
-                      "returnstrdup_alloc(str,length,file,line);", "cpputest_strndup_location")
+    def length_expr(fn, idents):
+        """`size_t length = E0; length = E1; ... return strdup_alloc(str, length, file, line);` -> one expression in
+        `len` (= test_harness_c_strlen(str)) and the parameters, by substituting the assignments in order"""
+        body = squeeze(function_body(thc, r"char\*\s*%s\s*\([^)]*\)\s*\{" % fn))
+        m = re.fullmatch(r"size_tlength=(?P<first>[^;]+);(?P<rest>(?:length=[^;]+;)*)returnstrdup_alloc\(str,length,file,line\);", body)
+        if not m:
+            raise TranslateError("%s changed shape: %s" % (fn, body))
+        steps = [m.group("first")] + [x[len("length="):] for x in m.group("rest").split(";") if x]
+        cur = None
+        for i, st in enumerate(steps):
+            st = st.replace("test_harness_c_strlen(str)", "len")
+            if "(" in st and re.search(r"[A-Za-z_]\w*\(", st.replace("sizeof(", "")):
+                raise TranslateError("%s: call in length computation: %s" % (fn, st))
+            e = expr(st, idents + (["length"] if i else []))
+            if cur is not None:
+                e = re.sub(r"\blength\b", lambda _m: cur, e)
+            cur = e
+        return cur
+    strdup_len = length_expr("cpputest_strdup_location", ["len"])
+    strndup_len = length_expr("cpputest_strndup_location", ["len", "n"])
     body = function_body(thc, r"void\*\s*cpputest_malloc_location\s*\([^)]*\)\s*\{")
     match_shape(body, "countdown();malloc_count++;returncpputest_malloc_location_with_leak_detection(size,file,line);",
                 "cpputest_malloc_location")
@@ -431,6 +481,8 @@ def extract():
     L.append("def corruptionBufferSizeCheck : Nat := %d" % guard_check)
     L.append("/-- `memory_corruption_buffer_size` with CPPUTEST_DISABLE_MEM_CORRUPTION_CHECK -/")
     L.append("def corruptionBufferSizeNoCheck : Nat := %d" % guard_nocheck)
+    L.append("/-- the byte `invalidateMemory` fills released user bytes with -/")
+    L.append("def poisonByte : UInt8 := %d" % poison)
     L.append("/-- `GuardBytes` -/")
     L.append("def guardBytes : List UInt8 := [%s]" % ", ".join(str(b) for b in gb))
     L.append("/-- `sizeof(MemoryLeakDetectorNode)` from the struct's fields, LP64 -/")
@@ -464,6 +516,10 @@ def extract():
     L.append("def callocRequest (num size : BitVec 64) : BitVec 64 :=\n  %s" % creq)
     L.append("/-- `cpputest_calloc_location`: length given to the zeroing memset -/")
     L.append("def callocMemset (num size : BitVec 64) : BitVec 64 :=\n  %s" % cset)
+    L.append("/-- `cpputest_strdup_location`: the `length` handed to `strdup_alloc`, `len` = `test_harness_c_strlen(str)` -/")
+    L.append("def strdupLength (len : BitVec 64) : BitVec 64 :=\n  %s" % strdup_len)
+    L.append("/-- `cpputest_strndup_location`: the `length` handed to `strdup_alloc` (assignments substituted in order) -/")
+    L.append("def strndupLength (len n : BitVec 64) : BitVec 64 :=\n  %s" % strndup_len)
     L.append("")
     L.append("/-- operator new variants: name, array form, ends in UT_THROW_BAD_ALLOC_WHEN_NULL, is a nothrow overload -/")
     L.append("def newVariants : List (String × Bool × Bool × Bool) := [\n%s]" % ",\n".join(
